@@ -362,6 +362,31 @@ def is_declared_symbol(node):
                for n in (node, other))
 
 
+def without_comments(node):
+    """Return a copy of ``node`` without comments and with quoted symbols
+    unquoted (``|Int|`` and ``Int`` are the same symbol), or None if nothing
+    is left. The nodes of the copy are new nodes."""
+    stack = [(node, False)]
+    res = [[]]
+    while stack:
+        cur, visited = stack.pop()
+        if cur.is_leaf():
+            if cur.data[:1] == ';':
+                continue
+            if len(cur.data) > 2 and cur.data[0] == '|' and cur.data[-1] == '|':
+                res[-1].append(Node(cur.data[1:-1]))
+            else:
+                res[-1].append(cur)
+        elif visited:
+            children = res.pop()
+            res[-1].append(Node(*children))
+        else:
+            stack.append((cur, True))
+            res.append([])
+            stack.extend((c, False) for c in reversed(cur.data))
+    return res[0][0] if res[0] else None
+
+
 def is_piped_symbol(node):
     """Checks whether the ``node`` is a quoted symbol."""
     return node.is_leaf() and node[0] == '|' and node[-1] == '|'
